@@ -565,6 +565,12 @@ def opPobs (j : Json) : Except String Json := do
     | .ok got => pure (obj [("blocks", bj), ("obs", enc got)])
     | .error e => pure (obj [("blocks", bj), ("rexc", .str (reprStr e))])
 
+/-- op "cobsstr": {"re": printed real part, "im": printed imaginary part} -> {"str", "fmt"} -/
+def opCobsStr (j : Json) : Except String Json := do
+  let re : String ← get j "re"
+  let im : String ← get j "im"
+  pure (obj [("str", .str (Fmt.cobsStr re im)), ("fmt", .str (Fmt.cobsFormat re im))])
+
 /-- op "flowwindow": {"n": number of flow times, "mask": [value > 0], "fr": fit_range} -> {"idx": indices of the flow times
     handed to the straight-line fit} | {"exc": "no-crossing"} -/
 def opFlowWindow (j : Json) : Except String Json := do
@@ -615,6 +621,7 @@ def dispatch (op : String) (j : Json) : Except String Json :=
   | "jsondoc" => opJsonDoc j
   | "pobs" => opPobs j
   | "flowwindow" => opFlowWindow j
+  | "cobsstr" => opCobsStr j
   | "sortnames" => opSortNames j
   | "select" => opSelect j
   | "jsonrep" => opJsonRep j
